@@ -160,6 +160,7 @@ struct Run {
   struct CookieCtl { int64_t t; int server; int on; };
   std::vector<CookieCtl> cookie_ctl;
   std::vector<ActiveEv> active_hist;
+  int settled_outstanding = 0, settled_zero_transitions = 0;   // requests whose accepting call has returned and that have no callback yet; times that count fell to zero
   bool user_set_servers = false;                            // the application has set the server list explicitly (init option or setter)
   int files_variant = 0; bool files_changed_since_init = false;   // C16: which rewrite of the system files is on the virtual disk                        // configured server list (indices, configuration order) over time
   int pick_kind(int64_t a) const;
